@@ -14,7 +14,9 @@ from lib.framework import Property
 from .util import *
 
 KNOWN_NAN = 'binary_irrev_cstr:nan-above-steady-state'
-BACKENDS = ('numpy', 'math', 'sympy')
+BACKENDS = ('numpy', 'math', 'sympy')          # correspondence: backend='numpy', backend='math' (strings), sympy module with symbols
+# the oracle calls every function under EVERY advertised way of choosing the backend (see C17._call for the spelling)
+ALL_FORMS = ('numpy', 'math', 'sympy', 'mod:numpy', 'mod:math', 'str:sympy', 'mod:sympy', 'None', 'default')
 
 # name -> (parameter names after t, number of results)
 FUNCS = {
@@ -95,6 +97,18 @@ class C17(Property):
                    'sympy (diff, N with 30 digits) for the oracle; Mathlib Real.exp/sqrt/tanh/artanh as the meaning of the backend functions',
                    'domain restriction major != minor for binary_irrev (0/0 in the source); kb + kf*major != 0; positive parameters',
                    'binary_irrev_cstr is only claimed below the steady state (r < r_ss): above it the real code returns nan (known finding)')
+    clauses_without_theorem = (
+        '"can be evaluated with each numeric or symbolic backend they advertise and give the same values": outside the Lean model by '
+        'construction - the translator maps be.f / math.f / np.f / get_backend(x).f to the same class method, so no theorem can '
+        'distinguish backends. Decided by the oracle only: every function is called at every generated point with backend="numpy", '
+        '"math", "sympy" (strings), the modules numpy, math, sympy, backend=None and with the argument omitted; all must return and '
+        'agree to 1e-9. How the source obtains and uses the backend is pinned textually by the *_sig_guard theorems (@backend entry).',
+        'defaults n=1 (binary_irrev_cstr), t0=0 and the unused P0=1 (dimerization_irrev): passed explicitly in the theorems; their '
+        'default values are pinned by the *_sig_guard theorems and exercised by the oracle only',
+        'binary_irrev_cstr above the steady state (2*k*r**2 + fv*r >= fv*fr): no theorem (known finding, the Python returns nan / raises)',
+        'binary_irrev with major == minor: excluded (0/0 in the source for every t)',
+        'Float evaluation vs the real-number closed form (rounding, overflow of exp for large exponents): correspondence with tolerance only',
+    )
     anchors = (('chempy/kinetics/integrated.py', None), ('chempy/_util.py', 'get_backend'))
 
     def __init__(self):
@@ -187,7 +201,21 @@ class C17(Property):
                     else:
                         out.append(float('nan'))
             return out
-        kw = {} if fn == 'dimerization_irrev' else {'backend': backend}
+        # forms of the `backend` argument: 'numpy' / 'math' / 'str:sympy' = the STRING (get_backend imports it),
+        # 'mod:numpy' / 'mod:math' / 'mod:sympy' = the module object, 'None' = backend=None (numpy), 'default' = argument omitted
+        if backend in ('numpy', 'math'):
+            bk = backend
+        elif backend.startswith('str:'):
+            bk = backend[4:]
+        elif backend.startswith('mod:'):
+            bk = __import__(backend[4:])
+        elif backend == 'None':
+            bk = None
+        elif backend == 'default':
+            bk = 'default'
+        else:
+            raise ValueError('unknown backend form %r' % backend)
+        kw = {} if (fn == 'dimerization_irrev' or bk == 'default') else {'backend': bk}
         if fn == 'dimerization_irrev':
             r = f(t, a['kf'], a['initial_C'], t0=a['t0'])
         else:
@@ -199,7 +227,13 @@ class C17(Property):
                     return [float('nan')] * nres
                 raise
         r = list(r) if nres > 1 else [r]
-        return [float(x) for x in r]
+        out = []
+        for x in r:
+            try:
+                out.append(float(x))
+            except TypeError:              # sympy number with an imaginary part (atanh outside (-1, 1))
+                out.append(float('nan'))
+        return out
 
     def _symbolic(self, fn):
         """(expressions, d/dt expressions, symbols, F) of the sympy backend with all parameters symbolic; cached.
@@ -264,18 +298,31 @@ class C17(Property):
         scale = self._scale(a)
         # (1) every advertised backend can be called and gives the same value
         vals = {}
-        for be in BACKENDS:
+        forms = BACKENDS if fn == 'dimerization_irrev' else ALL_FORMS
+        for be in forms:
             try:
                 vals[be] = self._call(fn, be, t, a)
             except Exception as e:
                 return '%s(t=%r, %r, backend=%s) raised %s: %s' % (fn, t, a, be, exc_name(e), str(e)[:80])
-        for be in BACKENDS:
+        for be in forms:
             if any(math.isnan(x) or math.isinf(x) for x in vals[be]):
                 return '%s(t=%r, %r, backend=%s) is not a finite real number: %r' % (fn, t, a, be, vals[be])
-        for be in BACKENDS[1:]:
+        for be in forms[1:]:
             for x, y in zip(vals['numpy'], vals[be]):
                 if not close(x, y, 1e-9, 1e-9 * scale):
                     return '%s(t=%r, %r): backend numpy gives %r, backend %s gives %r' % (fn, t, a, vals['numpy'], be, vals[be])
+        # (1b) the defaults of the signature: n=1 (binary_irrev_cstr), t0=0 (dimerization_irrev) mean what the theorems pass explicitly
+        from chempy.kinetics import integrated as I
+        import numpy as np
+        with np.errstate(all='ignore'):
+            if fn == 'binary_irrev_cstr' and a['n'] == 1.0:
+                d = [float(x) for x in I.binary_irrev_cstr(t, *[a[k] for k in names[:-1]])]
+                if not all(close(x, y, 1e-12, 1e-12 * scale) for x, y in zip(d, vals['numpy'])):
+                    return 'binary_irrev_cstr(t=%r, %r) with n omitted gives %r, with n=1 %r' % (t, a, d, vals['numpy'])
+            if fn == 'dimerization_irrev' and a['t0'] == 0.0:
+                d = float(I.dimerization_irrev(t, a['kf'], a['initial_C']))
+                if not close(d, vals['numpy'][0], 1e-12, 1e-12 * scale):
+                    return 'dimerization_irrev(t=%r, %r) with t0 omitted gives %r, with t0=0 %r' % (t, a, d, vals['numpy'][0])
         # (2) value at the start = stated initial concentration   (3) rate equation: the sympy-backend expression is
         # differentiated symbolically (sympy.diff) and both sides are evaluated with 100 digits at the generated point
         # (tolerance 1e-30 relative to the sum of the magnitudes of the terms + 1e-80 absolute: factors such as
